@@ -624,6 +624,7 @@ def _invariant_cases():
     base = [{'s', 'A', 'R'}, {'a'}, {'a', 'x', '_'}]
     C += [
         ('TM', 'a valid TM', base + [dict(td), 's', 'A', 'R', '_'], True),
+        ('TM', 'a valid TM with a transition into the rejecting state', base + [dict(td) | {('s', 'x'): ('R', 'x', 'L')}, 's', 'A', 'R', '_'], True),
         ('TM', 'the initial state is not a state', base + [dict(td), 'z', 'A', 'R', '_'], False),
         ('TM', 'the accepting state is not a state', base + [dict(td), 's', 'z', 'R', '_'], False),
         ('TM', 'the rejecting state is not a state', base + [dict(td), 's', 'A', 'z', '_'], False),
@@ -640,6 +641,8 @@ def _invariant_cases():
     return C
 
 
+_FIELDS = {'DFA': ['Q', 'Sigma', 'delta', 'q0', 'F'], 'NFA': ['Q', 'Sigma', 'delta', 'q0', 'F', 'epsilon'], 'PDA': ['Q', 'Sigma', 'Gamma', 'delta', 'q0', 'F', 'epsilon'],
+           'TM': ['Q', 'Sigma', 'Gamma', 'delta', 'q0', 'q_accept', 'q_reject', 'blank']}
 _CLASS_HOME = {'DFA': 'dfa.DFA', 'NFA': 'nfa.NFA', 'PDA': 'pda.PDA', 'TM': 'tm.TM'}
 
 
@@ -661,8 +664,19 @@ def check_class_invariants(ctx, rep, rule=RULE + '.M40'):
                 for order in ('asc', 'desc'):
                     it = _interp(ctx, order)
                     try:
-                        it.instantiate(cls, copy.deepcopy(args), {})
+                        given = copy.deepcopy(args)
+                        o = it.instantiate(cls, given, {})
                         raised = None
+                        if valid:
+                            # the object holds what it was given (a constructor that edits its arguments builds another automaton)
+                            for fname, val in zip(_FIELDS[cname], args):
+                                got = o._f.get(fname, '<absent>')
+                                if (dict(got) if isinstance(val, dict) and isinstance(got, dict) else got) != val:
+                                    rep.violates(rule, f, 'class ' + cname, 'the constructor stores {} = {} although it was given {} ({})'.format(fname, _show(got), _show(val), what))
+                                    bad = True
+                                    break
+                            if bad:
+                                break
                     except Raised as ex:
                         if ex.name != 'AssertionError' and not getattr(ex, 'certain', False):
                             raise Unsupported('the evaluator met a {} it cannot attribute to the code'.format(ex.name))
